@@ -172,12 +172,11 @@ Example filter_observations_example :
   filter_obs s_MDV t = Ok [(s_ID, [CNum 1; CNum 1; CNum (3#1)]); (s_MDV, [CNum 1; CNum 0; CNum 0]); (s_DV, [CNum 0; CNum (5#1); CNum (7#1)])].
 Proof. split; vm_compute; reflexivity. Qed.
 
-(* stamp_difference_exact: 12:30 and 0.25 h split exactly; 12:10 does not *)
-Example split_exact_examples :
-  (exists a, time_value_f (s_of [49;50;58;51;48]) = Ok a /\ split_exact a = true /\ ns_of_hours a = 45000000000000%Z) /\
-  (exists b, time_value_f (s_of [48;46;50;53]) = Ok b /\ split_exact b = true) /\
-  (exists c, time_value_f (s_of [49;50;58;49;48]) = Ok c /\ split_exact c = false /\ ns_of_hours c = 43799999999999%Z).
-Proof. repeat split; eexists; repeat split; vm_compute; reflexivity. Qed.
+(* clock_split_exact: the string 12:10 has the time value clock_hours 12 10 and is held as 43 800 000 000 000 ns *)
+Example clock_split_example :
+  time_value_f (s_of [49;50;58;49;48]) = Ok (clock_hours 12 10) /\ ns_of_hours (clock_hours 12 10) = 43800000000000%Z /\
+  Qeq_bool (clock_hours 12 10) (73 # 6) = false.
+Proof. repeat split; vm_compute; reflexivity. Qed.
 
 (* raw_refines: the reader_refines example file in raw mode: strings, the filtered and the surplus data still there *)
 Example raw_refines_example :
